@@ -13,7 +13,7 @@ class C17(Prop):
     level_rule = ('content trees from one PRNG: depth<=5 over str/int/bool/None/list/dict/TextBlock/'
                   'Comment/other objects, strings over an alphabet with every Python line boundary, '
                   'NBSP, tabs, empty and whitespace-only strings; ops tb.new/append/iadd/add/trim/'
-                  'chunk/cond_chunk + raw splitlines/strip; a case is non-trivial when its content '
+                  'chunk/cond_chunk + raw splitlines/strip; one list/dict OBJECT occurring several times in a tree; histories of operations on one block object (tb.hist) and on 2-3 block objects handed to one another (tb.hist2), every step observed; a case is non-trivial when its content '
                   'has >=2 leaves or a line boundary; distinct = distinct case hash')
     assumptions = ['floats, tuples and lone surrogates are outside the modelled content domain '
                    '(generators never produce them)']
